@@ -21,7 +21,7 @@ RULE = ("every public client operation x Hypothesis argument text biased to doub
         "[A-Za-z0-9_. -] or is empty; distinct by (operation, arguments).")
 
 PARTS = ['"', "\\", "\r", "\n", "\r\n", "\x00", "{", "}", "{5}", "{5+}", "{0+}", "é", "€", "😀", "", " ", "a", "b", "Z", "0", "_", ".",
-         "-", "OK", "\t", "'", "(", ")", "x" * 40, "\"\r\nLOGOUT\r\n", "script"]
+         "-", "OK", "\t", "'", "(", ")", "x" * 40, "y" * 1500, "\\\"", "\udbff\udfff".encode("utf-16", "surrogatepass").decode("utf-16"), "\"\r\nLOGOUT\r\n", "script"]
 OPS = ["havespace", "putscript", "checkscript", "deletescript", "renamescript", "setactive", "getscript", "listscripts", "capability"]
 VERB = {"havespace": b"HAVESPACE", "putscript": b"PUTSCRIPT", "checkscript": b"CHECKSCRIPT", "deletescript": b"DELETESCRIPT",
         "renamescript": b"RENAMESCRIPT", "setactive": b"SETACTIVE", "getscript": b"GETSCRIPT", "listscripts": b"LISTSCRIPTS",
